@@ -270,6 +270,8 @@ func (r *concRun) peerScript(rng *rand.Rand, stop <-chan struct{}) {
 			p := []byte(fmt.Sprintf("pp%d-%d", r.id, i))
 			if rng.Intn(3) == 0 {
 				p = append(p, prf(r.cfg.Seed, i, 125-len(p))...)
+			} else if r.cfg.Pingers > 0 && rng.Intn(3) == 0 {
+				p = []byte(fmt.Sprint(1 + rng.Intn(2))) // the peer's own Ping with the payload a local Ping uses: answered, and nothing else
 			}
 			r.logWire(wireLine{Ev: "SentPing", Pl: string(p)})
 			send(ws.Frame{Fin: true, Op: ws.OpPing, Payload: p})
